@@ -175,9 +175,19 @@ pub fn check_program(out: &mut Out, names: &mut Ser, p: &Prog, src: &str, defect
         Ok((Final::Value, v, _)) => format!("value {}", es.term(v, HoleMode::ZonkErase)),
         Ok((Final::Stuck(r), v, _)) => format!("stuck {} {}", r, es.term(v, HoleMode::ZonkErase)),
     };
+    // --- C03: the independent checker (Lean `inferX`) must accept the zonked elaboration at the reported type
+    es.reset_holes();
+    let oz_e = es.term(&elab, HoleMode::ZonkIds);
+    let oz_t = es.term(&ty, HoleMode::ZonkIds);
+    let hexsrc: String = src.bytes().map(|b| format!("{b:02x}")).collect();
+    let hc = holecopy_events() - hc0;
+    // --- C04: and the value, when there is one, at the same type
+    let oz_v = match &ev { Ok((Final::Value, v, _)) => Some(es.term(v, HoleMode::ZonkIds)), _ => None };
     names.names = std::mem::take(&mut es.names);
     names.name_list = std::mem::take(&mut es.name_list);
     out.case(&format!("evalz {EVAL_CAP} {zonked}"), &answer);
+    out.case(&format!("oracle 3000 {oz_e} {oz_t} C03 hc={hc} src:{hexsrc}"), "ok");
+    if let Some(v) = oz_v { out.case(&format!("oracle 3000 {v} {oz_t} C04 hc={hc} src:{hexsrc}"), "ok"); }
     let (fin, val, _steps) = match ev { Err(m) => { out.hit("C14", "evaluate-panic", src, &m); return; } Ok(x) => x };
     let exp = format!("{:?}", p.expected);
     match &fin {
